@@ -65,17 +65,54 @@ theorem toggleMove_sel (op : Opts) (s : TS) (d : Int) (h : SelOk op s) : SelOk o
     · exact h
   · exact h
 
+theorem hideEdits_cx (b s : TS) (h : CxOk s) : CxOk (hideEdits b s) := by
+  unfold hideEdits
+  split
+  · unfold CxOk; exact Nat.le_refl _
+  · exact h
+
+theorem hideEdits_sel (op : Opts) (b s : TS) (h : SelOk op s) : SelOk op (hideEdits b s) := by
+  unfold hideEdits
+  split <;> exact h
+
 theorem C09_cx_in_range_actStep (op : Opts) (s : TS) (a : Action) (h : CxOk s) : CxOk (actStep op s a) := by
   unfold actStep
   split
   · exact h
-  · split <;> first | exact toggleMove_cx op s _ h | exact C09_cx_in_range_act op s _ h
+  · apply hideEdits_cx
+    split <;> first | exact toggleMove_cx op s _ h | exact C09_cx_in_range_act op s _ h
 
 theorem C09_sel_limit_actStep (op : Opts) (s : TS) (a : Action) (h : SelOk op s) : SelOk op (actStep op s a) := by
   unfold actStep
   split
   · exact h
-  · split <;> first | exact toggleMove_sel op s _ h | exact C09_sel_limit_act op s _ h
+  · apply hideEdits_sel
+    split <;> first | exact toggleMove_sel op s _ h | exact C09_sel_limit_act op s _ h
+
+theorem hideEdits_input (b s : TS) (h : (hideEdits b s).inputless = true) : (hideEdits b s).input = b.input := by
+  unfold hideEdits at h ⊢
+  by_cases hi : s.inputless = true
+  · rw [if_pos hi]
+  · rw [if_neg hi] at h; exact absurd h hi
+
+/-- **A hidden input section does not take input.** While the input section is hidden
+    (--no-input, hide-input, toggle-input), no action changes the query — whatever it is, also
+    change-query, put, kills and yank — and the query cursor rests at its end. -/
+theorem C09_hidden_input_keeps_query (op : Opts) (s : TS) (a : Action) (h : (actStep op s a).inputless = true) :
+    (actStep op s a).input = s.input := by
+  unfold actStep at h ⊢
+  by_cases hs : s.outcome.isSome = true
+  · rw [if_pos hs]
+  · rw [if_neg hs] at h ⊢
+    exact hideEdits_input _ _ h
+
+/-- hide-input, then change-query: the query stays; show-input, then change-query: it changes. -/
+example :
+    let op : Opts := { multi := 0, cycle := false, layout := .default, maxItems := 5, total := 0, isWord := fun _ => true,
+                       resultsOf := fun _ _ => [], itemText := fun _ => [] }
+    let s : TS := { input := [97, 98], cx := 1, results := [] }
+    (([Action.hideInput, .changeQuery [120]].foldl (actStep op) s).input, ([Action.hideInput, .changeQuery [120]].foldl (actStep op) s).cx,
+     ([Action.hideInput, .showInput, .changeQuery [120]].foldl (actStep op) s).input) = ([97, 98], 2, [120]) := by decide
 
 /-- For every history of action lists — any lists, window heights, layouts, limits, --cycle —
     the query cursor is inside the query, never more than `--multi` items are selected, and after
@@ -178,7 +215,7 @@ theorem C09_sel_survives_query (op : Opts) (before s : TS) :
   exact (afterActions_fields op before s).2.2
 
 /- Non-vacuity. -/
-example : CxOk { results := [0, 1, 2] } ∧ SelOk ⟨2, false, .default, 5, 3, 3, false, fun _ => true, fun _ _ => [0, 1, 2], fun _ => []⟩ { results := [0, 1, 2] } := by
+example : CxOk { results := [0, 1, 2] } ∧ SelOk ⟨2, false, .default, 5, 0, 3, 3, false, fun _ => true, fun _ _ => [0, 1, 2], fun _ => []⟩ { results := [0, 1, 2] } := by
   simp [CxOk, SelOk]
 
 end Fzf.Props.C09
